@@ -1,4 +1,5 @@
 import dataclasses
+import os
 from pathlib import Path
 from typing import Optional, Union
 
@@ -273,9 +274,16 @@ class SamplerCore:
             print(f"Error while saving state: {e}")
             raise
 
-        # Save to file
-        with open(path, "wb") as f:
+        # Save to file atomically: write a temporary file, sync it to disk,
+        # then rename it over the final name (same pattern as
+        # StateManager.save_state), so a crash never leaves a truncated file
+        # under the checkpoint's final name.
+        temp_path = path.with_name(path.name + ".temp")
+        with open(temp_path, "wb") as f:
             dill.dump(d, f)
+            f.flush()
+            os.fsync(f.fileno())
+        os.replace(temp_path, path)
 
     def load_sampler_state(self, path: Union[str, Path]):
         """Load state (replaces Sampler.load_state - 28 lines)."""
